@@ -25,6 +25,9 @@ VARIANTS_QUICK = {
     'clang_string_incl_byvalue_refpolicy': ('clang++', 'c++14', ['VH_KEY=1', 'VH_ARGMODE=1', 'VH_GETEVENT=1', 'VH_POLICY=1']),
     # a getEvent policy that takes the listener argument by value (exclude-event form)
     'gxx_int_excl_byvalue_policy': ('g++', 'c++17', ['VH_KEY=0', 'VH_ARGMODE=0', 'VH_GETEVENT=2']),
+    # a getEvent policy whose result only converts to the key (long for an int key) and maps the key
+    'gxx_int_incl_converting_policy': ('g++', 'c++17', ['VH_KEY=0', 'VH_ARGMODE=1', 'VH_GETEVENT=3']),
+    'clang_int_excl_converting_policy': ('clang++', 'c++14', ['VH_KEY=0', 'VH_ARGMODE=0', 'VH_GETEVENT=3']),
 }
 VARIANTS_MORE = {
     'clang_string_excl': ('clang++', 'c++11', ['VH_KEY=1', 'VH_ARGMODE=0', 'VH_MAP=1']),
